@@ -205,6 +205,67 @@ pub struct BuildDatabase {
     loaded_at: SystemTime,
 }
 
+/// Instant of an ISO 8601 timestamp of the documented shape
+/// (`2019-11-21T18:33:35+00:00`, optionally with fractional seconds, `Z` for
+/// the offset) as milliseconds since the Unix epoch. `None` for other shapes.
+fn build_time_instant(text: &str) -> Option<i64> {
+    fn num(s: &str) -> Option<i64> {
+        if s.is_empty() || !s.bytes().all(|b| b.is_ascii_digit()) {
+            return None;
+        }
+        s.parse().ok()
+    }
+
+    let (date, rest) = text.split_once('T')?;
+    let mut ymd = date.splitn(3, '-');
+    let (year, month, day) = (num(ymd.next()?)?, num(ymd.next()?)?, num(ymd.next()?)?);
+
+    let (time, offset_secs) = if let Some(time) = rest.strip_suffix('Z') {
+        (time, 0)
+    } else {
+        let at = rest.rfind(['+', '-'])?;
+        let (hours, minutes) = rest[at + 1..].split_once(':')?;
+        let offset = num(hours)? * 3600 + num(minutes)? * 60;
+        let offset = if rest.as_bytes()[at] == b'-' {
+            -offset
+        } else {
+            offset
+        };
+        (&rest[..at], offset)
+    };
+
+    let (time, millis) = match time.split_once('.') {
+        Some((time, fraction)) => {
+            num(fraction)?;
+            let digits = format!("{fraction:0<3}");
+            (time, num(&digits[..3])?)
+        }
+        None => (time, 0),
+    };
+    let mut hms = time.splitn(3, ':');
+    let (hour, minute, second) = (num(hms.next()?)?, num(hms.next()?)?, num(hms.next()?)?);
+    if !(1..=12).contains(&month)
+        || !(1..=31).contains(&day)
+        || hour > 24
+        || minute > 59
+        || second > 60
+    {
+        return None;
+    }
+
+    // Days since 1970-01-01 of a proleptic Gregorian date
+    let y = if month <= 2 { year - 1 } else { year };
+    let era = y.div_euclid(400);
+    let year_of_era = y.rem_euclid(400);
+    let shifted_month = (month + 9) % 12;
+    let day_of_year = (153 * shifted_month + 2) / 5 + day - 1;
+    let day_of_era = year_of_era * 365 + year_of_era / 4 - year_of_era / 100 + day_of_year;
+    let days = era * 146_097 + day_of_era - 719_468;
+
+    let seconds = days * 86_400 + hour * 3600 + minute * 60 + second - offset_secs;
+    Some(seconds * 1000 + millis)
+}
+
 impl BuildDatabase {
     /// Load build database from JSON file.
     ///
@@ -245,9 +306,16 @@ impl BuildDatabase {
                 .push(build);
         }
 
-        // Sort each product's builds by build_time (newest first)
+        // Sort each product's builds by build_time (newest first). Timestamps
+        // are compared as instants so that different UTC offsets order
+        // correctly; a timestamp that is not of the documented shape sorts
+        // after the ones that are, by its text.
         for builds in builds_by_product.values_mut() {
-            builds.sort_by(|a, b| b.build_time.cmp(&a.build_time));
+            builds.sort_by(|a, b| {
+                let ka = (build_time_instant(&a.build_time), &a.build_time);
+                let kb = (build_time_instant(&b.build_time), &b.build_time);
+                kb.cmp(&ka)
+            });
         }
 
         let total_builds = builds_by_product.values().map(Vec::len).sum();
